@@ -1,279 +1,128 @@
-(* Frame lemma of the ATT server model, used by C08, C09, C10, C11: whatever l2cap_input (att_input),
-   l2cap_output (att_output) or any other operation does, the per connection data changes only
-
-     - on the connection the request arrived on (all other connections are untouched), and only by
-     - Exchange MTU (client_mtu := a value >= 23),
-     - the CCCD attribute (cccd := cccd_set ...),
-     - a notification queue operation (nq := step ...),
-
-   and from it: an invariant of connections that these three changes, a security change and a fresh
-   connection preserve holds in every reachable state ([inv_reachable]). *)
-From Coq Require Import Lia ZifyBool.
-From BT Require Import Base.ListX AttDb.AttDbModel NQueue.NQueueModel AttSrv.AttSrvModel.
+(* Proofs for property C10 (notifications carry the requested characteristic to subscribed clients only). *)
+From Coq Require Import Lia ZifyBool Permutation.
+From BT Require Import Base.ListX Base.Bits2 AttDb.AttDbModel AttDb.AttDbNotifProofs NQueue.NQueueModel AttSrv.AttSrvModel
+  AttSrv.AttSrvSpecC01 AttSrv.AttSrvProofsC01 AttSrv.AttSrvFrame.
 Local Open Scope N_scope.
 
-Ltac inv H := inversion H; subst; clear H.
+(* ------------------------------------------------------------------ which index a request queues *)
+Definition gci_is (g : nat) (x : cinfo) : bool := Nat.eqb (ci_gci x) g.
 
-Lemma f_some_inj (A : Type) (a b : A) : Some a = Some b -> a = b.
-Proof. intros H. inversion H. reflexivity. Qed.
-Lemma f_pair_inj (A B : Type) (a c : A) (b d : B) : (a, b) = (c, d) -> a = c /\ b = d.
-Proof. intros H. inversion H. split; reflexivity. Qed.
-Lemma f_failed_inj (A : Type) (a b : resp) : @Failed A a = Failed b -> a = b.
-Proof. intros H. inversion H. reflexivity. Qed.
-Lemma f_passed_inj (A : Type) (a b : A) : Passed a = Passed b -> a = b.
-Proof. intros H. inversion H. reflexivity. Qed.
-
-(* break the option monad / conditionals of a hypothesis "... = Some _" *)
-Ltac fmon :=
-  repeat match goal with
-         | H : Some _ = Some _ |- _ => apply f_some_inj in H
-         | H : None = Some _ |- _ => discriminate H
-         | H : Passed _ = Failed _ |- _ => discriminate H
-         | H : Failed _ = Passed _ |- _ => discriminate H
-         | H : Failed _ = Failed _ |- _ => apply f_failed_inj in H
-         | H : Passed _ = Passed _ |- _ => apply f_passed_inj in H
-         | H : (_, _) = (_, _) |- _ => apply f_pair_inj in H; destruct H
-         | H : _ = ?v |- _ => is_var v; subst v
-         | H : ?v = _ |- _ => is_var v; subst v
-         | H : match ?x with Some _ => _ | None => None end = Some _ |- _ =>
-             let E := fresh "E" in destruct x eqn:E; [|discriminate H]
-         | H : (let '(_, _) := ?x in _) = Some _ |- _ => destruct x
-         end.
-Ltac fbrk := match goal with H : (if ?x then _ else _) = Some _ |- _ => destruct x eqn:? end.
-
-(* ------------------------------------------------------------------ upd *)
-Lemma upd_upd (A : Type) (l : list A) i a b : upd (upd l i a) i b = upd l i b.
-Proof. revert i. induction l as [|x t IH]; intros [|i]; simpl; auto. rewrite IH. reflexivity. Qed.
-
-Lemma nth_error_upd_eq (A : Type) (l : list A) i a : (i < length l)%nat -> nth_error (upd l i a) i = Some a.
-Proof. revert i. induction l as [|x t IH]; intros [|i] H; simpl in *; try lia; auto. apply IH. lia. Qed.
-
-Lemma nth_error_upd_neq (A : Type) (l : list A) i j a : i <> j -> nth_error (upd l i a) j = nth_error l j.
-Proof. revert i j. induction l as [|x t IH]; intros [|i] [|j] H; simpl; auto; try congruence. Qed.
-
-Lemma upd_nth_error_same (A : Type) (l : list A) i a : nth_error l i = Some a -> upd l i a = l.
-Proof. revert i. induction l as [|x t IH]; intros [|i] H; simpl in *; try discriminate; auto.
+Lemma index_of_gci_first g : forall l x rest,
+  filter (gci_is g) l = x :: rest -> nth_error l (N.to_nat (index_of_gci g l)) = Some x.
+Proof.
+  induction l as [|a t IH]; intros x rest H; cbn [filter index_of_gci] in *; [discriminate|].
+  unfold gci_is in H at 1. destruct (Nat.eqb (ci_gci a) g) eqn:E.
   - inv H. reflexivity.
-  - rewrite IH; auto.
+  - replace (N.to_nat (1 + index_of_gci g t)) with (S (N.to_nat (index_of_gci g t))) by lia. cbn [nth_error]. eapply IH; eauto.
 Qed.
 
-Lemma nth_error_lt (A : Type) (l : list A) i a : nth_error l i = Some a -> (i < length l)%nat.
-Proof. intros H. apply nth_error_Some. congruence. Qed.
+Lemma filter_head_in (A : Type) (f : A -> bool) l x rest : filter f l = x :: rest -> In x l /\ f x = true.
+Proof. intros H. assert (I : In x (filter f l)) by (rewrite H; left; reflexivity). apply filter_In in I. exact I. Qed.
 
-(* ------------------------------------------------------------------ changes of one connection *)
-(* [mt] : may the client MTU change (only an Exchange MTU Request does that) *)
-Inductive conn_change (mt : bool) : conn -> conn -> Prop :=
-| cc_refl k : conn_change mt k k
-| cc_mtu k m k2 :
-    mt = true -> default_att_mtu <= m ->
-    conn_change mt (mkConn m (cccd k) (encrypted k) (pairing k) (nq k)) k2 -> conn_change mt k k2
-| cc_cccd k pos v k2 :
-    conn_change mt (mkConn (client_mtu k) (cccd_set (cccd k) pos v) (encrypted k) (pairing k) (nq k)) k2 -> conn_change mt k k2
-| cc_nq k o k2 :
-    conn_change mt (fst (nq_step k o)) k2 -> conn_change mt k k2.
-
-Lemma conn_change_trans mt a b d : conn_change mt a b -> conn_change mt b d -> conn_change mt a d.
+(* notify( value ) / indicate( value ): the queued index is the position of that characteristic in the priority
+   SORTED list, i.e. what find_notification_data_by_index maps back to the same attribute *)
+Theorem by_value_addresses_sorted_index c g d :
+  find_notification_data c g = Some d ->
+  find_notification_data_by_index c (snd d) = d
+  /\ exists x, nth_error (sorted_infos c) (N.to_nat (snd d)) = Some x /\ ci_gci x = g /\ fst d = ci_first x + 1.
 Proof.
-  induction 1; intros H2; auto.
-  - eapply cc_mtu; eauto.
-  - eapply cc_cccd; eauto.
-  - eapply cc_nq; eauto.
+  unfold find_notification_data. change (fun x : cinfo => Nat.eqb (ci_gci x) g) with (gci_is g).
+  destruct (filter (gci_is g) (sorted_infos c)) as [|x rest] eqn:F; [discriminate|].
+  destruct (c_value (ci_char x)); try discriminate. intros H. inv H. cbn [fst snd].
+  pose proof (index_of_gci_first _ _ _ _ F) as Nx.
+  destruct (filter_head_in _ _ _ _ _ F) as (_ & Gx). apply Nat.eqb_eq in Gx.
+  split.
+  - unfold find_notification_data_by_index. rewrite Nx. reflexivity.
+  - exists x. auto.
 Qed.
 
-Lemma conn_change_weaken mt a b : conn_change mt a b -> conn_change true a b.
+(* ------------------------------------------------------------------ the sorted list and the declaration list *)
+(* global characteristic numbers are 0, 1, 2, ... in declaration order *)
+Lemma chars_infos_gci c s : forall cs gci off le, map ci_gci (chars_infos c s cs gci off le) = seq gci (length cs).
+Proof. induction cs as [|ch t IH]; intros; cbn [chars_infos map length seq]; auto. rewrite IH. reflexivity. Qed.
+
+Lemma chars_infos_length c s : forall cs gci off le, length (chars_infos c s cs gci off le) = length cs.
+Proof. induction cs as [|ch t IH]; intros; cbn [chars_infos length]; auto. Qed.
+
+Lemma svcs_infos_gci c : forall ss gci le, map ci_gci (svcs_infos c ss gci le) = seq gci (length (svcs_infos c ss gci le)).
 Proof.
-  induction 1; [constructor| | |].
-  - eapply cc_mtu; eauto.
-  - eapply cc_cccd; eauto.
-  - eapply cc_nq; eauto.
+  induction ss as [|s t IH]; intros; cbn [svcs_infos map length seq]; auto.
+  rewrite map_app, app_length, seq_app, chars_infos_gci, IH, chars_infos_length. reflexivity.
 Qed.
 
-Lemma conn_change_mtu a b : conn_change false a b -> client_mtu b = client_mtu a.
+Lemma all_infos_gci_nodup c : NoDup (map ci_gci (all_infos c)).
+Proof. unfold all_infos. rewrite svcs_infos_gci. apply seq_NoDup. Qed.
+
+(* an element of the sorted list is an element of the declaration list with another ci_pos *)
+Lemma number_from_in l : forall n y, In y (number_from set_pos l n) -> exists x p, In x l /\ y = set_pos x p.
 Proof.
-  induction 1; auto; try discriminate.
-  - rewrite IHconn_change. unfold nq_step. destruct (NQueueModel.step (nq k) o). reflexivity.
+  induction l as [|a t IH]; intros n y H; cbn [number_from] in H; [destruct H|].
+  destruct H as [H|H]; [exists a, n; split; [left; reflexivity|auto]|].
+  destruct (IH _ _ H) as (x & p & I & E). exists x, p. split; [right; auto|auto].
 Qed.
 
-Definition frameb (mt : bool) (cid : nat) (st st' : srv_state) : Prop :=
-  exists k k', get_conn st cid = Some k /\ conns st' = upd (conns st) cid k' /\ conn_change mt k k'.
-Notation frame := (frameb true).
-
-Lemma frameb_weaken mt cid st st' : frameb mt cid st st' -> frame cid st st'.
-Proof. intros (k & k' & G & E & C). exists k, k'. repeat split; auto. eapply conn_change_weaken; eauto. Qed.
-
-Lemma frame_same mt cid st st' k : get_conn st cid = Some k -> conns st' = conns st -> frameb mt cid st st'.
+Lemma sorted_in_all c y : In y (sorted_infos c) -> exists x p, In x (all_infos c) /\ has_cccd (ci_char x) = true /\ y = set_pos x p.
 Proof.
-  intros G E. exists k, k. split; auto. split; [|constructor].
-  rewrite E. symmetry. apply upd_nth_error_same. exact G.
+  intros H. apply (Permutation_in _ (sorted_infos_perm c)) in H. unfold cccd_infos in H.
+  change (fun (x : cinfo) (n : N) => _) with set_pos in H.
+  destruct (number_from_in _ _ _ H) as (x & p & I & E). apply filter_In in I. destruct I as (I & C).
+  exists x, p. auto.
 Qed.
 
-Lemma frame_trans mt cid st st1 st2 : frameb mt cid st st1 -> frameb mt cid st1 st2 -> frameb mt cid st st2.
+Lemma in_map_nodup_eq (A B : Type) (f : A -> B) l x y : NoDup (map f l) -> In x l -> In y l -> f x = f y -> x = y.
 Proof.
-  intros (k & k1 & G & E & C) (k1' & k2 & G1 & E1 & C1).
-  unfold get_conn in *. rewrite E in G1. rewrite nth_error_upd_eq in G1 by (eapply nth_error_lt; eauto).
-  inv G1. exists k, k2. split; auto. split.
-  - rewrite E1, E, upd_upd. reflexivity.
-  - eapply conn_change_trans; eauto.
+  induction l as [|a t IH]; intros ND Ix Iy E; [destruct Ix|]. cbn [map] in ND. inversion ND as [|? ? Na ND']; subst.
+  destruct Ix as [->|Ix], Iy as [->|Iy]; auto.
+  - exfalso. apply Na. rewrite E. apply in_map. auto.
+  - exfalso. apply Na. rewrite <- E. apply in_map. auto.
 Qed.
 
-Lemma frame_get mt cid st st' : frameb mt cid st st' -> exists k, get_conn st cid = Some k.
-Proof. intros (k & _ & G & _). eauto. Qed.
-
-Lemma frame_other mt cid st st' j : frameb mt cid st st' -> j <> cid -> get_conn st' j = get_conn st j.
+(* notify< UUID >() / indicate< UUID >(): the same, for the first characteristic with that uuid *)
+Theorem by_uuid_addresses_sorted_index c u d :
+  find_notification_by_uuid c u = Some d ->
+  exists x0, find_char_by_uuid c u = Some x0
+    /\ find_notification_data_by_index c (snd d) = d
+    /\ exists x, nth_error (sorted_infos c) (N.to_nat (snd d)) = Some x /\ ci_gci x = ci_gci x0 /\ fst d = ci_first x + 1.
 Proof.
-  intros (k & k' & G & E & _) N. unfold get_conn. rewrite E. apply nth_error_upd_neq. auto.
+  unfold find_notification_by_uuid. destruct (find_char_by_uuid c u) as [x0|] eqn:F; [|discriminate].
+  destruct (has_cccd (ci_char x0)) eqn:C; [|discriminate]. intros H. inv H. cbn [fst snd].
+  exists x0. split; auto.
+  (* x0 is in the declaration list; its image is in the sorted list *)
+  assert (I0 : In x0 (all_infos c)).
+  { unfold find_char_by_uuid in F. destruct (filter _ (all_infos c)) as [|y r] eqn:E; [discriminate|]. inv F.
+    apply filter_head_in in E. tauto. }
+  assert (exists y, In y (sorted_infos c) /\ ci_gci y = ci_gci x0) as (y & Iy & Gy).
+  { assert (In x0 (filter (fun x => has_cccd (ci_char x)) (all_infos c))) by (apply filter_In; auto).
+    assert (exists y, In y (cccd_infos c) /\ ci_gci y = ci_gci x0) as (y & Iy & Gy).
+    { unfold cccd_infos. change (fun (x : cinfo) (n : N) => _) with set_pos.
+      generalize 0. induction (filter _ (all_infos c)) as [|a t IH]; intros n; [destruct H|].
+      destruct H as [->|H]; cbn [number_from].
+      - eexists. split; [left; reflexivity|reflexivity].
+      - destruct (IH H (n + 1)) as (y & Iy & Gy). exists y. split; [right; auto|auto]. }
+    exists y. split; auto. apply (Permutation_in _ (Permutation_sym (sorted_infos_perm c))). auto. }
+  destruct (filter (gci_is (ci_gci x0)) (sorted_infos c)) as [|x rest] eqn:Fs.
+  { exfalso. assert (In y (filter (gci_is (ci_gci x0)) (sorted_infos c))) by (apply filter_In; split; auto; unfold gci_is; apply Nat.eqb_eq; auto).
+    rewrite Fs in H. destruct H. }
+  pose proof (index_of_gci_first _ _ _ _ Fs) as Nx.
+  destruct (filter_head_in _ _ _ _ _ Fs) as (Ix & Gx). apply Nat.eqb_eq in Gx.
+  (* x is x0 up to ci_pos *)
+  destruct (sorted_in_all c x Ix) as (x1 & p & I1 & _ & ->). cbn [set_pos ci_gci] in Gx.
+  assert (x1 = x0) by (eapply in_map_nodup_eq; eauto using all_infos_gci_nodup). subst x1.
+  split.
+  - unfold find_notification_data_by_index. rewrite Nx. reflexivity.
+  - eexists. split; [exact Nx|]. split; reflexivity.
 Qed.
 
-Lemma frame_this mt cid st st' : frameb mt cid st st' ->
-  exists k k', get_conn st cid = Some k /\ get_conn st' cid = Some k' /\ conn_change mt k k'.
+Lemma put_put_take b l b1 x y z b2 :
+  put b 3 l = Some b1 -> put b1 0 [x; y; z] = Some b2 -> takeN (3 + len l) b2 = x :: y :: z :: l.
 Proof.
-  intros (k & k' & G & E & C). exists k, k'. repeat split; auto.
-  unfold get_conn in *. rewrite E. apply nth_error_upd_eq. eapply nth_error_lt; eauto.
-Qed.
-
-(* ------------------------------------------------------------------ attribute access *)
-Lemma value_read_conns c st sec s ch gci off maxlen st' r d :
-  value_read c st sec s ch gci off maxlen = (st', r, d) -> conns st' = conns st.
-Proof.
-  unfold value_read. destruct (security_check _ _ _); try (intros H; inv H; reflexivity).
-  destruct (c_value ch).
-  - destruct (c_no_read ch); [intros H; inv H; reflexivity|]. destruct (mem_read _ _ _). intros H; inv H. reflexivity.
-  - destruct (c_no_read ch); [intros H; inv H; reflexivity|]. destruct (mem_read _ _ _). intros H; inv H. reflexivity.
-  - destruct (mem_read _ _ _). intros H; inv H. reflexivity.
-  - destruct (negb rd); [intros H; inv H; reflexivity|].
-    destruct (negb blob && negb (off =? 0)); [intros H; inv H; reflexivity|].
-    destruct (mem_read _ _ _). intros H; inv H. reflexivity.
-Qed.
-
-Lemma access_read_conns c st cid a index off maxlen st' r d :
-  access_read c st cid a index off maxlen = Some (st', r, d) -> conns st' = conns st.
-Proof.
-  unfold access_read. destruct (get_conn st cid) as [k|]; [|discriminate].
-  destruct a as [s|u|s ch|s ch gci cci|s ch cci|nm|u v].
-  - destruct (mem_read _ _ _). intros H; inv H. reflexivity.
-  - destruct (mem_read _ _ _). intros H; inv H. reflexivity.
-  - destruct (char_decl_value c ch index); [|discriminate]. destruct (mem_read _ _ _). intros H; inv H. reflexivity.
-  - intros H; inv H. eapply value_read_conns; eauto.
-  - destruct (security_check _ _ _); try (intros H; inv H; reflexivity).
-    destruct (mem_read _ _ _). intros H; inv H. reflexivity.
-  - destruct (mem_read _ _ _). intros H; inv H. reflexivity.
-  - destruct (mem_read _ _ _). intros H; inv H. reflexivity.
-Qed.
-
-Lemma value_write_conns c st sec s ch gci off data st' r :
-  value_write c st sec s ch gci off data = (st', r) -> conns st' = conns st.
-Proof.
-  unfold value_write. destruct (security_check _ _ _); try (intros H; inv H; reflexivity).
-  destruct (c_value ch).
-  - destruct (is_const || c_no_write ch); [intros H; inv H; reflexivity|].
-    destruct (mem_write _ _ _). intros H; inv H. reflexivity.
-  - repeat match goal with |- context [if ?x then _ else _] => destruct x end; intros H; inv H; reflexivity.
-  - intros H; inv H; reflexivity.
-  - destruct (negb wr); [intros H; inv H; reflexivity|].
-    destruct (negb blob && negb (off =? 0)); [intros H; inv H; reflexivity|].
-    destruct (mem_write _ _ _). intros H; inv H. reflexivity.
-Qed.
-
-Lemma cccd_write_frame mt c st cid k cci off data st' r :
-  get_conn st cid = Some k -> cccd_write c st cid k cci off data = (st', r) -> frameb mt cid st st'.
-Proof.
-  intros G. unfold cccd_write.
-  destruct (2 <? off); [intros H; inv H; eapply frame_same; eauto|].
-  destruct (2 <? len data + off); [intros H; inv H; eapply frame_same; eauto|].
-  destruct (off =? 0); [|intros H; inv H; eapply frame_same; eauto].
-  intros H; inv H. exists k. eexists. split; [exact G|]. split; [reflexivity|].
-  eapply cc_cccd. constructor.
-Qed.
-
-Lemma access_write_frame mt c st cid a off data st' r :
-  access_write c st cid a off data = Some (st', r) -> frameb mt cid st st'.
-Proof.
-  unfold access_write. destruct (get_conn st cid) as [k|] eqn:G; [|discriminate].
-  destruct a as [s|u|s ch|s ch gci cci|s ch cci|nm|u v]; intros H.
-  1-3,7: inv H; eapply frame_same; eauto.
-  - inv H. eapply frame_same; eauto. eapply value_write_conns; eauto.
-  - destruct (security_check _ _ _); try (inv H; eapply frame_same; eauto; fail).
-    inv H. eapply cccd_write_frame; eauto.
-  - inv H. eapply frame_same; eauto.
-Qed.
-
-(* ------------------------------------------------------------------ the handlers *)
-Lemma exchange_mtu_frame c st cid pdu b n st' r k0 :
-  get_conn st cid = Some k0 ->
-  handle_exchange_mtu c st cid pdu b n = Some (st', r) -> frame cid st st'.
-Proof.
-  intros G. unfold handle_exchange_mtu. intros H. fmon. fbrk; fmon; [eapply frame_same; eauto|].
-  fbrk; fmon; [eapply frame_same; eauto|].
-  eexists. eexists. split; [eassumption|]. split; [reflexivity|].
-  eapply cc_mtu; [reflexivity| |constructor]. apply N.ltb_ge. assumption.
-Qed.
-
-(* destruct the acc_res / checked scrutinee of the hypothesis *)
-Ltac fres := match goal with
-  | H : match ?x with Success => _ | Err _ => _ | ValueEqual => _ end = Some _ |- _ => destruct x
-  end.
-Ltac fchk := match goal with
-  | H : match ?x with Failed _ => _ | Passed _ => _ end = Some _ |- _ => let f := fresh "f" in let h := fresh "h" in let i := fresh "i" in destruct x as [f|[h i]]
-  end.
-Ltac fread := match goal with E : access_read _ _ _ _ _ _ _ = Some _ |- _ => apply access_read_conns in E end.
-Ltac fstep := first [fres | fchk | fbrk]; fmon.
-
-Lemma read_common_conns c st cid pdu b n rsp h index off st' r :
-  handle_read_common c st cid pdu b n rsp h index off = Some (st', r) -> conns st' = conns st.
-Proof. unfold handle_read_common. intros H. fmon. fread. fres; fmon; auto. Qed.
-
-Lemma read_conns c st cid pdu b n st' r : handle_read c st cid pdu b n = Some (st', r) -> conns st' = conns st.
-Proof. unfold handle_read. intros H. fmon. fchk; fmon; auto. eapply read_common_conns; eauto. Qed.
-
-Lemma read_blob_conns c st cid pdu b n st' r : handle_read_blob c st cid pdu b n = Some (st', r) -> conns st' = conns st.
-Proof. unfold handle_read_blob. intros H. fmon. fchk; fmon; auto. eapply read_common_conns; eauto. Qed.
-
-Lemma collect_attribute_conns c st cid k e index a st' k' :
-  collect_attribute c st cid k e index a = Some (st', k') -> conns st' = conns st.
-Proof.
-  unfold collect_attribute. intros H. fbrk; fmon; auto. fread.
-  fres; fmon; auto. fbrk; fmon. fbrk; fmon; auto.
-Qed.
-
-Lemma all_attributes_conns fuel : forall c st cid f k e index last eh st' k',
-  all_attributes fuel c st cid f k e index last eh = Some (st', k') -> conns st' = conns st.
-Proof.
-  induction fuel as [|fuel IH]; intros c st cid f k e index last eh st' k' H; simpl in H; fmon; auto.
-  fbrk; fmon; auto. fbrk.
-  - fmon. match goal with E : collect_attribute _ _ _ _ _ _ _ = Some _ |- _ => apply collect_attribute_conns in E end.
-    apply IH in H. congruence.
-  - apply IH in H. auto.
-Qed.
-
-Lemma read_by_type_conns c st cid pdu b n st' r : handle_read_by_type c st cid pdu b n = Some (st', r) -> conns st' = conns st.
-Proof.
-  unfold handle_read_by_type. intros H. fmon. fchk; fmon; auto.
-  match goal with E : all_attributes _ _ _ _ _ _ _ _ _ _ = Some _ |- _ => apply all_attributes_conns in E end.
-  fbrk; fmon; auto.
-Qed.
-
-Lemma read_multiple_loop_conns c cid opcode b0 n : forall m hs st b p st' r,
-  (length hs <= m)%nat ->
-  read_multiple_loop c st cid opcode hs b0 b p n = Some (st', r) -> conns st' = conns st.
-Proof.
-  induction m as [|m IH]; intros hs st b p st' r L H.
-  - destruct hs; [|simpl in L; lia]. simpl in H. fmon. auto.
-  - destruct hs as [|lo [|hi t]]; simpl in H; fmon; auto.
-    fbrk; fmon; auto. fbrk; fmon; auto. fread.
-    fres; fmon; auto. fbrk; fmon. apply IH in H; [congruence|]. simpl in L. lia.
-Qed.
-
-Lemma read_multiple_conns c st cid pdu b n st' r : handle_read_multiple c st cid pdu b n = Some (st', r) -> conns st' = conns st.
-Proof.
-  unfold handle_read_multiple. intros H. fmon. fbrk; fmon; auto.
-  eapply read_multiple_loop_conns in H; eauto.
-Qed.
-
-Ltac fwrite := match goal with E : access_write _ _ _ _ _ _ = Some _ |- _ => apply access_write_frame in E end.
-
-Lemma write_request_frame mt c st cid pdu b n st' r k :
-  get_conn st cid = Some k -> handle_write_request c st cid pdu b n = Some (st', r) -> frameb mt cid st st'.
-Proof.
-  intros G. unfold handle_write_request. intros H. fmon. fbrk; fmon; [eapply frame_same; eauto|].
-  fchk; fmon; [eapply frame_same; eauto|]. fwrite. fres; fmon; auto.
+  unfold put. destruct (3 + len l <=? len b) eqn:E1; [|discriminate]. intros H1. apply f_some_inj in H1. subst b1.
+  destruct (0 + len [x; y; z] <=? _) eqn:E2; [|discriminate]. intros H2. apply f_some_inj in H2. subst b2.
+  apply N.leb_le in E1. unfold len in E1. clear E2.
+  unfold takeN, dropN, len.
+  replace (N.to_nat 0) with 0%nat by reflexivity. replace (N.to_nat 3) with 3%nat by reflexivity.
+  replace (N.to_nat (0 + N.of_nat (length [x; y; z]))) with 3%nat by (cbn [length]; lia).
+  replace (N.to_nat (3 + N.of_nat (length l))) with (3 + length l)%nat by lia.
+  cbn [firstn app].
+  assert (L3 : length (firstn 3 b) = 3%nat) by (rewrite firstn_length; lia).
 Show.
